@@ -9,7 +9,9 @@
     - [FW_call_nw]             : no contract of the protocol ever emits a call of the hub's
                                  WithdrawUnbonded — a withdrawal is always the root of a transaction;
     - [FW_claims_le], [FW_open_unreleased] : the C07 / C08 invariants imply the two hypotheses of
-                                 the hub-level funding theorems of WithdrawP.v. *)
+                                 the hub-level funding theorems of WithdrawP.v;
+    - [FW_E1'_mono], [FW_E1'_from_expected] : E1' is monotone in the arriving coins, and follows
+                                 from (k - 1) * (coins the group expects) <= 1e18. *)
 From Krp Require Import Tactics Prelude Fixed FMap Types Env Registry Cw20 Reward Dispatcher Hub Exec
      ExecP Hist RegistryP HubFrame HubAdmin HubRates ClaimsStep ClaimsP LifeP GroupRelease WithdrawP
      RewardP RewardWorld.
@@ -423,4 +425,31 @@ Proof.
   intros Hs Hb. unfold GR_E1'. cbv zeta. split.
   - eapply N.le_trans; [apply N.mul_le_mono_l, N.le_sub_l | exact Hs].
   - eapply N.le_trans; [apply N.mul_le_mono_l, N.le_sub_l | exact Hb].
+Qed.
+
+(** E1' is monotone in the arriving coins: more coins, less loss *)
+Lemma FW_split_mono Us Ub A A' : A <= A' ->
+  fst (GR_split Us Ub A) <= fst (GR_split Us Ub A') /\ snd (GR_split Us Ub A) <= snd (GR_split Us Ub A').
+Proof.
+  intros Hle. unfold GR_split. cbv zeta. cbn [fst snd].
+  set (br := if 0 <? Us + Ub then D - Us * D / (Us + Ub) else 0).
+  assert (Hbr : br <= D) by (unfold br; destruct (0 <? Us + Ub); [apply N.le_sub_l | apply N.le_0_l]).
+  assert (Hq : A * br / D <= A).
+  { apply N.div_le_upper_bound; [exact D_nz|]. rewrite (N.mul_comm D A). apply N.mul_le_mono_l. exact Hbr. }
+  assert (Hq' : A' * br / D <= A * br / D + (A' - A)).
+  { replace A' with (A + (A' - A)) at 1 by lia. rewrite N.mul_add_distr_r.
+    eapply N.le_trans; [apply N.div_le_mono; [exact D_nz|]; apply N.add_le_mono_l;
+                        apply N.mul_le_mono_l; exact Hbr|].
+    rewrite N.div_add by exact D_nz. apply N.le_refl. }
+  assert (Hm : A * br / D <= A' * br / D).
+  { apply N.div_le_mono; [exact D_nz|]. apply N.mul_le_mono_r. exact Hle. }
+  generalize dependent (A * br / D). generalize dependent (A' * br / D). intros. split; lia.
+Qed.
+
+Lemma FW_E1'_mono g A A' : A <= A' -> GR_E1' g A -> GR_E1' g A'.
+Proof.
+  intros Hle [H1 H2]. destruct (FW_split_mono (GR_tot_s g) (GR_tot_b g) A A' Hle) as [M1 M2].
+  unfold GR_E1'. cbv zeta. split.
+  - eapply N.le_trans; [apply N.mul_le_mono_l|exact H1]. lia.
+  - eapply N.le_trans; [apply N.mul_le_mono_l|exact H2]. lia.
 Qed.
